@@ -72,9 +72,10 @@ Definition try_catch {A} (m : M A) (h : M A) : M A :=
   fun f => match m f with (Ret a, f') => (Ret a, f') | (Exc, f') => h f' end.
 Notation "x <- m ;; k" := (bind m (fun x => k)) (at level 61, m at next level, right associativity).
 
-(* injected faults of one operation: an error at open, at read, or during write after n
-   bytes reached the disk (zf: the rest of the final length is zero-filled) *)
-Inductive fault := NoFault | FOpen | FRead | FWrite (n : nat) (zf : bool).
+(* injected faults of one operation: an error at open, at read, during write after n bytes
+   reached the disk (zf: the rest of the final length is zero-filled), or reported by close
+   after all the data reached the disk *)
+Inductive fault := NoFault | FOpen | FRead | FWrite (n : nat) (zf : bool) | FClose.
 
 Definition torn (data : bytes) (n : nat) (zf : bool) : bytes :=
   firstn n data ++ (if zf then repeat 0%N (length data - n) else []).
@@ -104,6 +105,7 @@ Definition sys_open_w (flt : fault) (t : Z) (n : str) : M str :=
 Definition sys_write (flt : fault) (t : Z) (h : str) (data : bytes) : M unit :=
   fun f => match flt with
            | FWrite n zf => (Exc, fs_set f h (mkfile (torn data n zf) t))
+           | FClose => (Exc, fs_set f h (mkfile data t))
            | _ => (Ret tt, fs_set f h (mkfile data t))
            end.
 
@@ -263,7 +265,7 @@ Section Cache.
   (* a put is complete when all of the data reached the file *)
   Definition complete (flt : fault) (k : kind) (o : N) : bool :=
     match flt with
-    | NoFault | FRead => true
+    | NoFault | FRead | FClose => true
     | FOpen => false
     | FWrite n _ => Nat.leb (length (ser k o)) n
     end.
@@ -414,6 +416,11 @@ Definition sres_eqb (a b : sweep_res) : bool :=
 Definition c11_sweep_spec_ok (c : scase) : bool :=
   (sres_eqb (s_first c) SNone && negb (s_exists c) && sres_eqb (s_second c) SNone)
   || (negb (N.ltb (s_n c) (s_len c)) && sres_eqb (s_first c) SSame && sres_eqb (s_second c) SSame && s_exists c).
+
+(* entries written whole over one another (two writers, in-place writes): the shorter new
+   entry followed by the tail of the longer old one yields the new object or nothing *)
+Definition c11_overlay_spec_ok (r : sweep_res) : bool :=
+  match r with SNone | SSame => true | _ => false end.
 
 (* the model on the same entry: object 0 stored through an instance of the class, then torn *)
 Definition c11_sweep_agrees (c : scase) : bool :=
